@@ -67,7 +67,9 @@ class C05(C03):
                 {"name": "B", "type": "DINT", "len": 2, "addr": [0x93, 2, 3]}]
         unknown = [[["s", "nosuch"]], [["s", "A"], ["s", "x"]], [["c", 0x99], ["i", 1], ["a", 1]],
                    [["c", 0x93], ["i", 9], ["a", 3]], [["c", 0x93], ["i", 2], ["a", 9]], [["c", 2], ["i", 1], ["a", 77]],
-                   [["c", 0x93], ["i", 2]], [["c", 2], ["i", 1]]]
+                   [["c", 0x93], ["i", 2]], [["c", 2], ["i", 1]],
+                   # the Message Router's own class, but an instance that does not exist
+                   [["c", 2], ["i", 7], ["a", 1]], [["c", 2], ["i", 7]], [["c", 0x93], ["i", 1], ["a", 3]]]
         reqs = []
         for p in unknown:
             reqs += [{"op": "rt", "path": p, "n": 1}, {"op": "rf", "path": p, "n": 1, "off": 0},
